@@ -46,6 +46,8 @@ func runC16(c *report.Ctx) {
 	checkEnvProducers(c)
 	checkLookupEnvPresence(c)
 	checkOptionalReservedStores(c)
+	checkInitFieldsToEnvArgs(c)
+	checkCredentialsLayerStartsEmpty(c)
 }
 
 func checkMapUnion(c *report.Ctx) {
